@@ -124,6 +124,9 @@ def gen_case(r) -> dict:
         case["dirs"], case["spell"], case["explicit_empty"] = [], [], "dirs"
     elif case["apps"] and x < 0.24:
         case["decoy_apps"], case["apps"], case["explicit_empty"] = case["apps"], [], "app_dirs"
+    # where the project lives: only the path *relative to the component directory* counts, so a hidden or
+    # underscore-prefixed directory above the project (~/.local/…, ~/.jenkins/workspace/…, /srv/_build/…) changes nothing
+    case["ancestor"] = core.rng(PROP, "ancestor", r.random()).choice([None, None, None, ".ws", "_build", ".hidden/_x"])
     return case
 
 
@@ -149,7 +152,9 @@ def run_case(case: dict) -> Tuple[Any, List[dict], Any]:
 
     from django_components import get_component_files
 
-    base = os.path.realpath(tempfile.mkdtemp(prefix="djc_c20_"))
+    top = os.path.realpath(tempfile.mkdtemp(prefix="djc_c20_"))
+    base = os.path.join(top, *case["ancestor"].split("/"), "proj") if case.get("ancestor") else top
+    os.makedirs(base, exist_ok=True)
     appbase = os.path.join(base, "_site")
     os.makedirs(appbase)
     sys.path.insert(0, appbase)
@@ -243,7 +248,7 @@ def run_case(case: dict) -> Tuple[Any, List[dict], Any]:
         return impl, reqs, imports
     finally:
         sys.path.remove(appbase)
-        shutil.rmtree(base, ignore_errors=True)
+        shutil.rmtree(top, ignore_errors=True)
         importlib.invalidate_caches()
 
 
@@ -267,6 +272,9 @@ def run(tier: str) -> int:
              {"mode": "dirs", "suffix": ".py", "apps": [{"pkg": "c20appfixed", "tree": [["x.y.py"], ["sub", "z..py"], ["__init__.py"], ["m.py"]]}],
               "dirs": [{"above": ["components"], "tree": [["x.y.py"], ["sub", "z..py"], ["_b.py"], ["_priv", "p.py"], [".hid", "h.py"], ["sub", ".g.py"],
                                                            ["we-ird", "h.py"], ["__init__.py"], ["sub", "__init__.py"], ["pkg", "mod.py"]]}]}]
+    fixed += [{"mode": m, "suffix": sfx, "ancestor": anc, "spell": ["plain"], "apps": [{"pkg": f"c20appanc{j}", "tree": [["k.py"], ["k.js"], ["sub", "l.py"]]}],
+               "dirs": [{"above": ["components"], "tree": [["a.py"], ["a.js"], ["sub", "b.py"], ["_p.py"], [".h", "c.py"], ["__init__.py"]]}]}
+              for j, (m, sfx, anc) in enumerate([("dirs", ".py", ".ws"), ("legacy-tuple", ".py", ".hidden/_x"), ("legacy", ".js", "_build")])]
     fixed += [{"mode": "dirs", "suffix": ".py", "dirs": [], "apps": [], "spell": [], "explicit_empty": "dirs",
                "decoy_dir": [["a.py"], ["sub", "b.py"]]},
               {"mode": "dirs", "suffix": ".py", "dirs": [{"above": ["components"], "tree": [["a.py"]]}], "apps": [], "spell": ["plain"],
@@ -283,7 +291,10 @@ def run(tier: str) -> int:
         for rep in mine:
             if "error" in rep:
                 raise core.InfraError(f"driver: {rep['error']}")
-        shown = {"mode": case["mode"], "suffix": case["suffix"], "dirs": case["dirs"], "apps": case["apps"], "spell": case.get("spell")}
+        shown = {"mode": case["mode"], "suffix": case["suffix"], "dirs": case["dirs"], "apps": case["apps"], "spell": case.get("spell"),
+                 "ancestor": case.get("ancestor")}
+        if case.get("ancestor"):
+            ch.cov["streams"].setdefault("dot-or-underscore-ancestor", {"cases": 0})["cases"] += 1   # a view of `tree`, not extra evaluations
         if case.get("explicit_empty"):
             shown.update(explicit_empty=case["explicit_empty"], decoy_dir=case.get("decoy_dir"), decoy_apps=case.get("decoy_apps"))
         if not isinstance(impl, list):
